@@ -2199,6 +2199,15 @@ func (sa *Application) GetAskMaxPriority() int32 {
 }
 
 func (sa *Application) cleanupAsks() {
+	// the asks are dropped: a reservation they still hold must go with them, otherwise the
+	// reserved node stays excluded from normal scheduling for ever
+	released := 0
+	for _, reserve := range sa.reservations {
+		released += sa.unReserveInternal(reserve)
+	}
+	if released > 0 && sa.queue != nil {
+		sa.queue.UnReserve(sa.ApplicationID, released)
+	}
 	sa.requests = make(map[string]*Allocation)
 	sa.sortedRequests = nil
 }
